@@ -176,6 +176,10 @@ func RegisterCandidate(native *native.NativeService) ([]byte, error) {
 	if err != nil {
 		return utils.BYTE_FALSE, fmt.Errorf("registerCandidate, peerPubkey format error: %v", err)
 	}
+	//the pool is keyed by the pubkey string: accept the canonical (lower case) hex spelling only
+	if hex.EncodeToString(peerPubkeyPrefix) != params.PeerPubkey {
+		return utils.BYTE_FALSE, fmt.Errorf("registerCandidate, peerPubkey must be lower case hex")
+	}
 	//get black list
 	blackList, err := native.GetCacheDB().Get(utils.ConcatKey(contract, []byte(BLACK_LIST), peerPubkeyPrefix))
 	if err != nil {
@@ -343,7 +347,7 @@ func ApproveCandidate(native *native.NativeService) ([]byte, error) {
 	}
 
 	peerPoolItem.Status = CandidateStatus
-	peerPoolMap.PeerPoolMap[params.PeerPubkey] = peerPoolItem
+	peerPoolMap.PeerPoolMap[peerPoolItem.PeerPubkey] = peerPoolItem
 	putPeerPoolMap(native, peerPoolMap, view)
 
 	native.GetCacheDB().Delete(utils.ConcatKey(contract, []byte(PEER_APPLY), peerPubkeyPrefix))
